@@ -132,7 +132,9 @@ fn frames() -> Vec<Frame> {
         specs.push(("declared-struct-error", m2));
     }
     // undeclared names
-    for name in ["io.systemd.System", "a.NotFoun", "A.NotFound", "a.NotFound2", "a.bad", "", "NotFound", "org.varlink.service", "org.varlink.service.Nope", "b.Gone"] {
+    // (the last ones are written with JSON escapes: the name can then not be borrowed from the message)
+    for name in ["io.systemd.System", "a.NotFoun", "A.NotFound", "a.NotFound2", "a.bad", "", "NotFound", "org.varlink.service", "org.varlink.service.Nope", "b.Gone",
+        "io.systemd\\u002eSystem", "org.example.Caf\\u00e9.Closed", "a.\\u004eotFound", "a.Not\\nFound", "org.varlink.service.\\u004dethodNotFound"] {
         for p in ["", "\"parameters\":null", "\"parameters\":{}", "\"parameters\":{\"a\":1}", "\"parameters\":{\"id\":1,\"name\":\"n\"}", "\"parameters\":{\"errno\":5,\"origin\":\"x\"}"] {
             let mut m = vec![format!("\"error\":\"{name}\"")];
             if !p.is_empty() { m.push(s(p)); }
